@@ -130,13 +130,15 @@ pub fn map() -> Function {
         ])
 }
 
+// The library's own helpers are named by their absolute path: the short name would resolve to a
+// function of the same name in the user's root module first.
 fn minmax(minimax: &str) -> Function {
     Function::default()
         .with_arg("iterable")
         .with_card(Card::return_card(Card::call_function(
             minimax,
             vec![
-                Card::function_value("row_to_value"),
+                Card::function_value("std.row_to_value"),
                 Card::read_var("iterable"),
             ],
         )))
@@ -144,21 +146,21 @@ fn minmax(minimax: &str) -> Function {
 
 /// Return the smallest value in the table, or nil if the table is empty
 pub fn min() -> Function {
-    minmax("min_by_key")
+    minmax("std.min_by_key")
 }
 
 /// Return the largest value in the table, or nil if the table is empty
 pub fn max() -> Function {
-    minmax("max_by_key")
+    minmax("std.max_by_key")
 }
 
 pub fn sorted() -> Function {
     Function::default()
         .with_arg("iterable")
         .with_card(Card::return_card(Card::call_function(
-            "sorted_by_key",
+            "std.sorted_by_key",
             vec![
-                Card::function_value("row_to_value"),
+                Card::function_value("std.row_to_value"),
                 Card::read_var("iterable"),
             ],
         )))
